@@ -122,19 +122,38 @@ def run(ctx):
     ctx.floor('C05.3', 'file creations in ripd', n, 18)
 
     # ---------------------------------------------------------------- C05.4
-    app = P.fn('rip_log::EventLog::append')
-    writes = app.calls(r'std::io::Write>::(write_all|write|write_fmt)$')
-    ctx.floor('C05.4', 'writes in EventLog::append', len(writes), 1)
-    # count writes on the success path: writes from which the Ok return is reachable
-    okret = [bi for (bi, si, st) in app.aggregates(r'^core::result::Result$', 'Ok')]
-    on_ok = [w for w in writes if any(r in app.reach(w.bb) for r in okret)]
-    chained = [w for w in on_ok if any(app.can_reach(w.bb, w2.bb) for w2 in on_ok if w2 is not w)]
-    ctx.ob('C05.4', app, 'single-write-per-frame', len(on_ok) == 1 and not app.in_loop(on_ok[0].bb),
-           '%d write call(s) lie on the success path of one append%s' % (len(on_ok), '' if len(on_ok) == 1 else ': a crash between them leaves a body without newline; O_APPEND then glues the next frame to it and replay fails for good'),
+    from .common import log_writer_calls
+    app, writes, on_ok = log_writer_calls(P)
+    ctx.floor('C05.4', 'calls handed the log writer in EventLog::append', len(writes), 1)
+    one = len(on_ok) == 1 and not app.in_loop(on_ok[0].bb) and on_ok[0].name == 'write_all'
+    ctx.ob('C05.4', app, 'single-write-per-frame', one,
+           '%d call(s) hand bytes to the log writer on the success path of one append (%s)%s' % (len(on_ok), ', '.join(w.name for w in on_ok), '' if one else
+           ': the frame must reach the file as ONE write_all of body+newline; several writes (or a streaming serialiser, or a partial `write`) let a crash / a second handle leave a body without newline, O_APPEND then glues the next frame to it and replay fails for good'),
            line=on_ok[0].line if on_ok else app.line)
+
+    # flush before the acknowledgement: every path from the write to a return passes flush (or is an error exit)
+    flush = app.calls(r'std::io::Write>::flush$')
+    errs = [s_.bb for s_ in app.calls(r'FromResidual<.*>>::from_residual$')]
+    for w in writes:
+        okf = bool(flush) and app.must_pass([x.bb for x in flush] + errs, w.bb, app.returns())
+        ctx.ob('C05.4', app, 'flush-before-ack', okf, 'every path from the write to a successful return passes flush' if okf else
+               'a path from the write returns Ok WITHOUT flush: the acknowledged frame sits in the BufWriter and is lost when the process dies', line=w.line)
 
     # ---------------------------------------------------------------- C05.5
     ln = P.fn(STORE + 'load_next_seq_for')
+    # recovery never fails on a cache fault: the restart paths consume a cache read by matching it
+    from .c04 import CACHE_READ, CACHE_READ_EXCLUDE, consumption
+    nrec = 0
+    for rf in (ln, P.fn(STORE + 'replay_events')):
+        for c in rf.calls(CACHE_READ):
+            if re.search(CACHE_READ_EXCLUDE, c.callee):
+                continue
+            nrec += 1
+            chain, verdict = consumption(rf, c)
+            ctx.ob('C05.5', rf, 'recovery-ignores-cache-fault:' + c.name, verdict is None,
+                   '%s result is consumed by %s%s' % (c.name, ' > '.join(chain) or 'match', '' if verdict is None else
+                                                      ' — ' + verdict + ': after a crash that left the sidecar empty / torn, every append to the thread fails instead of falling back to the log'), line=c.line)
+    ctx.floor('C05.5', 'cache reads on the recovery paths (load_next_seq_for, replay_events)', nrec, 2)
     oks = ln.aggregates(r'^core::result::Result$', 'Ok')
     ctx.floor('C05.5', 'Ok returns of load_next_seq_for', len(oks), 1)
     for (bi, si, st) in oks:
